@@ -318,7 +318,9 @@ def finish(pid, tier, seed, res, wall, rule, assumptions, exhaustive=True):
         wall_s=round(wall, 3),
         violations=len(new),
     )
-    write_json(os.path.join(VERIF, "evidence", f"{pid}.json"), ev)
+    # evidence describes /repo itself; runs against another tree (seeded-change self test) write elsewhere
+    evdir = "evidence" if repo_root() == os.path.realpath("/repo") else "evidence-other-tree"
+    write_json(os.path.join(VERIF, evdir, f"{pid}.json"), ev)
     print(
         f"[{pid}] tier={tier} seed={seed} executions={res.executions} states={res.states} "
         f"transitions={res.transitions} oracle_evals={res.checks} distinct_outcomes={len(res.outcomes)} "
